@@ -224,11 +224,11 @@ func Gdef(r *rand.Rand, nGlyphs int) *gdef.Table {
 // Filler returns a lookup (GSUB type 5 / GPOS type 7, one SeqContext3
 // subtable with a single format-1 input coverage) whose encoded size -
 // lookup table header, subtable offset and subtable - is exactly nBytes.
-// nBytes must be even and lie in [22, 65500].
+// nBytes must be even and lie in [22, 65554].
 func Filler(tableType, nBytes int) *gtab.LookupTable {
 	// 6 (lookup header) + 2 (subtable offset) + 6 + 2 (one coverage offset) + 4 + 2g
 	g := (nBytes - 20) / 2
-	if nBytes%2 != 0 || g < 1 || g > 32760 {
+	if nBytes%2 != 0 || g < 1 || g > 32767 {
 		panic("otl.Filler: size not representable")
 	}
 	set := make(coverage.Set, g)
